@@ -160,7 +160,14 @@ class Run:
         sub = self.prot.subscriber
         try:
             if a["kind"] == "start":
-                sub.start()
+                # start() takes the loop as an optional argument: without it, positionally or by keyword
+                self.n_starts = getattr(self, "n_starts", 0) + 1
+                if self.n_starts % 3 == 0:
+                    sub.start()
+                elif self.n_starts % 3 == 1:
+                    sub.start(self.h.loop)
+                else:
+                    sub.start(loop=self.h.loop)
             elif a["kind"] == "stop":
                 sub.stop()
             elif a["kind"] == "sub":
